@@ -103,11 +103,16 @@ def run_real(rng, kind, cap, simmode, ops, rep=None, oracle=False, case=None):
                 if oracle:
                     check_oracle(rep, kind, cap, simmode, h, offered, pop, case)
             elif op[0] == "i":
-                h.insert(mk(rng, *op[1]))
+                obj = mk(rng, *op[1])
+                h.insert(obj)
+                if rep is not None and any(c is obj for c in h):
+                    rep.violate(f"{kind}: insert stored the offered object itself, not a copy", "C10:not-a-copy", case)
             elif op[0] == "r":
                 h.remove(op[1])
             else:
                 h.clear()
+            if rep is not None and kind == "hof" and not oracle:
+                check_order(rep, kind, h, case)       # theorem C10.history_inv: interleaved insert / remove / clear
             states.append(state_of(h))
         except IndexError:
             states.append("err")
@@ -115,17 +120,26 @@ def run_real(rng, kind, cap, simmode, ops, rep=None, oracle=False, case=None):
     return states
 
 
-def check_oracle(rep, kind, cap, simmode, h, offered, last_pop, case):
+def check_order(rep, kind, h, case):
+    """ordering, NaN-exclusion and arrival order among equals (hold after every mutator, manual ones included)"""
     st = state_of(h)
     keys = [s[0] for s in st]
     if any(k == "nan" for k in keys) or (kind == "pf" and any(s[1] == "nan" for s in st)):
         rep.violate(f"{kind}: holds a NaN key: {st}", "C10:nan-member", case)
-        return
+        return False
     if keys != sorted(keys):
         rep.violate(f"{kind}: keys not ascending: {keys}", "C10:not-sorted", case)
     for a, b in zip(st, st[1:]):
         if a[0] == b[0] and not a[2] <= b[2]:
             rep.violate(f"{kind}: equal keys not in arrival order: {st}", "C10:tie-order", case)
+    return True
+
+
+def check_oracle(rep, kind, cap, simmode, h, offered, last_pop, case):
+    st = state_of(h)
+    keys = [s[0] for s in st]
+    if not check_order(rep, kind, h, case):
+        return
     # independence of copies
     ids_pop = {id(c) for c in last_pop}
     if any(id(c) in ids_pop for c in h):
